@@ -343,7 +343,7 @@ pub fn run(cfg: &Cfg, rep: &mut Report) {
   // reports closed, hence nothing may begin on the probe any more.
   {
     let n = cfg.n(6_000, 300_000);
-    let fams = [12usize, 13, 18];
+    let fams = [12usize, 13, 18, 15, 16, 17, 24, 25];
     let prep = |s: &mut super::thr::Scen, r: &mut Rng| {
       if !s.threads.iter().flatten().any(|op| matches!(op, super::thr::TOp::Unsub(0))) {
         let t = r.below(s.threads.len());
@@ -353,7 +353,7 @@ pub fn run(cfg: &Cfg, rep: &mut Report) {
     };
     super::thr::systematic_families(cfg, rep, 0xC17A, &fams, &prep, &|o, _| super::thr::after_unsub(o));
     super::thr::campaign(cfg, rep, "thr", n, 0xC17F, &mut |r: &mut Rng| {
-      let f = fams[r.below(3)];
+      let f = fams[r.below(fams.len())];
       let mut s = super::thr::random_scen(r, f);
       prep(&mut s, r);
       s
@@ -395,6 +395,14 @@ pub fn run(cfg: &Cfg, rep: &mut Report) {
         rep.violation(&kind, &format!("{}[is_closed || terminal]", name), &id, json!({"why": why, "strategy": format!("{:?}", strategy), "schedule_length": out.trace.len()}));
       }
     }
+  }
+
+  // (g) a subject is a subscription too: is_closed() asked on a clone of a SubjectThreads from
+  // one thread while others emit, terminate, subscribe and unsubscribe
+  {
+    let n = cfg.n(6_000, 300_000);
+    super::thr::systematic_families(cfg, rep, 0xC17B, &[0, 0, 0], &|_, _| {}, &|o, _| super::thr::terminal_consistency(o));
+    super::thr::campaign(cfg, rep, "thrsubj", n, 0xC17C, &mut |r: &mut Rng| super::thr::random_scen(r, 0), &|o, _| super::thr::terminal_consistency(o));
   }
 
   // (c) the small subscription types, driven directly
